@@ -14,21 +14,21 @@ import (
 
 // SessModel is what the monitor learnt about a session id from the redirect that issued it.
 type SessModel struct {
-	SID       string
-	Order     int
-	Filter    int
-	State     string
-	Nonce     string
-	Challenge string
-	URL       string // originally requested URL
-	Seq       int64
-	Chain     int  // grant chain bound at login (-1 before)
+	SID          string
+	Order        int
+	Filter       int
+	State        string
+	Nonce        string
+	Challenge    string
+	URL          string // originally requested URL
+	Seq          int64
+	Chain        int  // grant chain bound at login (-1 before)
 	Exchanged    bool // the provider answered 200 to a code exchange of this session
 	ExchangedSeq int64
 	ClearFailed  bool
-	Done      bool // a callback with this session's state has completed an exchange
-	DoneSeq   int64
-	Code      string
+	Done         bool // a callback with this session's state has completed an exchange
+	DoneSeq      int64
+	Code         string
 }
 
 func (w *World) sess(sid string) *SessModel {
@@ -862,7 +862,19 @@ func (w *World) monRefresh(rec *CheckRec) {
 		}
 	}
 	if storeFault {
-		return // C01 judges verdicts under store/key faults; the merge model applies to clean exchanges
+		// C01 judges verdicts under store/key faults and the merge model applies to clean exchanges; but
+		// one clause survives other faults: after a FAILED exchange the stale session must be gone, unless the
+		// removal itself (or the read that precedes it) was the call that failed
+		removalFaulted := false
+		for _, fl := range rec.Faults {
+			if strings.HasPrefix(fl, "store.RemoveSession") || strings.HasPrefix(fl, "store.GetTokenResponse") || strings.HasPrefix(fl, "store.GetAuthorizationState") || strings.HasPrefix(fl, "jwks.") || strings.HasPrefix(fl, "idp.jwks") {
+				removalFaulted = true
+			}
+		}
+		if !success && !either && !removalFaulted && rec.After != nil && rec.After.Found && rec.After.Tokens != nil && !rec.Overlapped {
+			w.violate("C11", "stale-session-kept-after-failed-refresh:under-store-fault", fmt.Sprintf("check #%d: the refresh exchange failed and another store call of the same check failed too (%s); the stale session is still stored", rec.N, strings.Join(rec.Faults, ",")))
+		}
+		return
 	}
 	if either {
 		w.probe("refresh-under-key-rollover")
